@@ -81,7 +81,7 @@ def random_case(rng, features=()):
     srcs = []
     for si in range(rng.randint(1, 3)):
         d = rng.choice(["cb/src", "cb/src/sub"])
-        rel = f"{d}/s{si}.c"
+        rel = f"{d}/s{si}." + ("F90" if "fortran" in features else "c")
         body = []
         for _ in range(rng.randint(1, 3)):
             h = rng.choice(HEADERS)
